@@ -376,7 +376,7 @@ type Segment struct {
 	WireLen int
 	// region boundaries relative to the start of the segment on the wire
 	NonceEnd, MetaEnd, MetaTagEnd, Pad1End, BodyEnd, BodyTagEnd, Pad2End int
-	KeyIndex                                                           int // which of the candidate keys opened it
+	KeyIndex                                                             int // which of the candidate keys opened it
 }
 
 // Digest is a short digest of the payload (for retransmission comparison).
@@ -508,13 +508,13 @@ func incNonce(n []byte) {
 
 // StreamDecoder follows one direction of a TCP connection.
 type StreamDecoder struct {
-	Keys    [][]byte // candidates until the first segment opens
-	key     []byte
-	nonce   []byte
-	buf     []byte
-	started bool
-	Offset  int // stream offset of buf[0]
-	Err     error
+	Keys     [][]byte // candidates until the first segment opens
+	key      []byte
+	nonce    []byte
+	buf      []byte
+	started  bool
+	Offset   int // stream offset of buf[0]
+	Err      error
 	KeyIndex int
 }
 
@@ -691,4 +691,101 @@ func (e *StreamEncoder) Encode(firstNonce []byte, m Meta, payload, pad1, pad2 []
 func SealMeta(key, nonce []byte, m Meta) []byte {
 	out := append([]byte(nil), nonce...)
 	return append(out, seal(key, nonce, m.Marshal())...)
+}
+
+// ---- raw construction (for hostile-but-authenticated units) ------------------------------------------------------------------
+
+// Parts is a valid segment taken apart, so that a caller can lie in the metadata or damage the tail before assembling it.
+type Parts struct {
+	Nonce     []byte // nonce that seals the metadata
+	Meta      Meta   // consistent with Pad1/Body/Pad2
+	Pad1      []byte
+	Body      []byte // sealed (and possibly low-entropy encoded) payload, empty if none
+	Pad2      []byte
+	WithNonce bool // the nonce is written in front (UDP always; TCP first segment only)
+}
+
+// Bytes assembles the unit; rawMeta (32 bytes), if not nil, replaces the marshalled metadata.
+func (p Parts) Bytes(key, rawMeta []byte) []byte {
+	if rawMeta == nil {
+		rawMeta = p.Meta.Marshal()
+	}
+	var out []byte
+	if p.WithNonce {
+		out = append(out, p.Nonce...)
+	}
+	out = append(out, seal(key, p.Nonce, rawMeta)...)
+	out = append(out, p.Pad1...)
+	out = append(out, p.Body...)
+	out = append(out, p.Pad2...)
+	return out
+}
+
+// DatagramParts is EncodeDatagram, taken apart.
+func DatagramParts(key []byte, user string, nonce []byte, m Meta, payload, pad1, pad2 []byte, lePadBit uint8) Parts {
+	n := append([]byte(nil), nonce...)
+	if user != "" {
+		ApplyHint(user, n)
+	}
+	if IsSession(m.Type) {
+		pad1 = nil
+	} else {
+		m.Prefix = uint8(len(pad1))
+	}
+	m.Suffix = uint8(len(pad2))
+	var body []byte
+	if len(payload) > 0 {
+		ct := seal(key, n, payload)
+		if IsLowEntropy(m.Type) {
+			m.LEExtract = uint16(len(payload))
+			enc := LEEncode(ct[:len(payload)], m.LEMode, m.LEMask, m.LERot, lePadBit)
+			m.PayLen = uint16(len(enc))
+			body = append(enc, ct[len(payload):]...)
+		} else {
+			m.PayLen = uint16(len(payload))
+			body = ct
+		}
+	} else {
+		m.PayLen = 0
+	}
+	return Parts{Nonce: n, Meta: m, Pad1: pad1, Body: body, Pad2: pad2, WithNonce: true}
+}
+
+// Parts is Encode, taken apart (the encoder's nonce counter advances exactly as for Encode).
+func (e *StreamEncoder) Parts(firstNonce []byte, m Meta, payload, pad1, pad2 []byte, lePadBit uint8) Parts {
+	p := Parts{}
+	if !e.started {
+		e.nonce = append([]byte(nil), firstNonce...)
+		if e.User != "" {
+			ApplyHint(e.User, e.nonce)
+		}
+		p.WithNonce = true
+		e.started = true
+	} else {
+		incNonce(e.nonce)
+	}
+	if IsSession(m.Type) {
+		pad1 = nil
+	} else {
+		m.Prefix = uint8(len(pad1))
+	}
+	m.Suffix = uint8(len(pad2))
+	p.Nonce = append([]byte(nil), e.nonce...)
+	if len(payload) > 0 {
+		incNonce(e.nonce)
+		ct := seal(e.Key, e.nonce, payload)
+		if IsLowEntropy(m.Type) {
+			m.LEExtract = uint16(len(payload))
+			enc := LEEncode(ct[:len(payload)], m.LEMode, m.LEMask, m.LERot, lePadBit)
+			m.PayLen = uint16(len(enc))
+			p.Body = append(enc, ct[len(payload):]...)
+		} else {
+			m.PayLen = uint16(len(payload))
+			p.Body = ct
+		}
+	} else {
+		m.PayLen = 0
+	}
+	p.Meta, p.Pad1, p.Pad2 = m, pad1, pad2
+	return p
 }
